@@ -53,7 +53,10 @@ def mod_of(con, arr):
 
 
 class LoopC:
-    def __init__(self, inv=None, decreases=None, var_types=None, axioms=None, ghost=None, arrays=(), fields=()):
+    def __init__(self, inv=None, decreases=None, var_types=None, axioms=None, ghost=None, arrays=(), fields=(), stop=None):
+        # stop: (s0, s, v) -> {name: Bool}.  The verified region of the function ends where this loop begins: the clauses are proved
+        # there and the path ends; nothing after that point is verified (recorded as an assumption in the evidence)
+        self.stop = stop
         self.arrays = tuple(arrays)     # heap arrays known to be written in the loop (saves the learning restarts)
         self.fields = tuple(fields)     # (local variable holding a PObj, field name) known to be written in the loop
         self.ghost = ghost or {}        # name -> (s, v): term evaluated at loop entry (before the havoc), visible to inv as v.<name>
